@@ -144,33 +144,24 @@ func (c17Addr) Network() string { return "c17" }
 func (c17Addr) String() string  { return "c17" }
 
 type c17Inner struct {
-	q       chan net.Conn
-	permits chan error // replay mode: every Accept first takes a permit (nil: deliver, else: fail with it)
-	closed  chan struct{}
-	once    sync.Once
-	mu      sync.Mutex
-	failIn  int // trace mode: fail the n-th Accept from now (0: never)
+	q      chan net.Conn
+	errs   chan error // replay mode: an error to return from the Accept that is waiting for a client
+	closed chan struct{}
+	once   sync.Once
+	mu     sync.Mutex
+	failIn int // trace mode: fail the n-th Accept from now (0: never)
 }
 
 func c17NewInner(gated bool) *c17Inner {
 	in := &c17Inner{q: make(chan net.Conn, 256), closed: make(chan struct{})}
 	if gated {
-		in.permits = make(chan error, 64)
+		in.errs = make(chan error, 64)
 	}
 	return in
 }
 
 func (in *c17Inner) Accept() (net.Conn, error) {
-	if in.permits != nil {
-		select {
-		case e := <-in.permits:
-			if e != nil {
-				return nil, e
-			}
-		case <-in.closed:
-			return nil, net.ErrClosed
-		}
-	} else {
+	if in.errs == nil {
 		in.mu.Lock()
 		fail := false
 		if in.failIn > 0 {
@@ -185,6 +176,8 @@ func (in *c17Inner) Accept() (net.Conn, error) {
 	select {
 	case c := <-in.q:
 		return c, nil
+	case e := <-in.errs:
+		return nil, e
 	case <-in.closed:
 		return nil, net.ErrClosed
 	}
@@ -272,8 +265,14 @@ func TestVerifC17LLTrace(t *testing.T) {
 					return
 				}
 				g.acc("a")
-				mode := hr.Intn(6)
+				mode := hr.Intn(8)
 				delay := time.Duration(100+hr.Intn(400)) * time.Microsecond
+				linger := time.Duration(0)
+				if mode >= 6 {
+					// the peer has finished but the handler is not done with the connection yet (still
+					// writing its answer): the connection stays open, and counted, until Close
+					linger = time.Duration(300+hr.Intn(1500)) * time.Microsecond
+				}
 				hwg.Add(1)
 				atomic.AddInt32(&active, 1)
 				go func() {
@@ -300,6 +299,7 @@ func TestVerifC17LLTrace(t *testing.T) {
 							g.drop()
 							g.note(vx.M{"what": "read error on established connection", "err": rerr.Error()})
 						}
+						time.Sleep(linger)
 					}
 					g.closing()
 					switch mode {
@@ -344,6 +344,12 @@ func TestVerifC17LLTrace(t *testing.T) {
 				time.Sleep(time.Duration(200+r.Intn(1500)) * time.Microsecond)
 				if r.Intn(3) == 0 {
 					runtime.Gosched()
+				}
+				if tc, ok := cl.(*net.TCPConn); ok && r.Intn(2) == 0 {
+					// half-close and wait for the other side to hang up
+					tc.CloseWrite()
+					tc.SetReadDeadline(time.Now().Add(30 * time.Second))
+					io.Copy(io.Discard, tc)
 				}
 				cl.Close()
 			}()
@@ -518,6 +524,14 @@ func c17Wait(ch <-chan struct{}, d time.Duration) bool {
 	}
 }
 
+// c17RConn is an accepted connection of the replay with its handler-side reader.
+type c17RConn struct {
+	c      net.Conn
+	peer   net.Conn // the client's end, known once it is needed
+	sawEOF chan struct{}
+	eof    bool
+}
+
 // TestVerifC17LLReplay executes behaviours of ConnCap_Gen (one JSON array of `out` records per line).
 func TestVerifC17LLReplay(t *testing.T) {
 	behs := vx.ReadBehaviours(t, "VERIF_IN")
@@ -540,7 +554,8 @@ func TestVerifC17LLReplay(t *testing.T) {
 		accCmd := make(chan struct{}, 64)
 		accRes := make(chan error, 64)
 		var cmu sync.Mutex
-		var conns []net.Conn
+		var conns []*c17RConn
+		peerOf := map[net.Conn]net.Conn{} // inner (server side) end -> client end
 		accExit := make(chan struct{})
 		go func() {
 			defer close(accExit)
@@ -551,14 +566,32 @@ func TestVerifC17LLReplay(t *testing.T) {
 					g.accErr("a")
 				} else {
 					g.acc("a")
+					rc := &c17RConn{c: c, sawEOF: make(chan struct{})}
+					if lc, ok := c.(*limitListenerConn); ok {
+						cmu.Lock()
+						rc.peer = peerOf[lc.Conn]
+						cmu.Unlock()
+					}
+					go func() { // the handler's reader: notices when the peer finishes
+						buf := make([]byte, 8)
+						for {
+							if _, err := rc.c.Read(buf); err != nil {
+								if err == io.EOF {
+									close(rc.sawEOF)
+								}
+								return
+							}
+						}
+					}()
 					cmu.Lock()
-					conns = append(conns, c)
+					conns = append(conns, rc)
 					cmu.Unlock()
 				}
 				accRes <- err
 			}
 		}()
 		inAccept := false // the acceptor is inside l.Accept()
+		listenerClosed := false
 		var dones []chan struct{}
 		var dwg sync.WaitGroup
 		var clients []net.Conn
@@ -568,6 +601,9 @@ func TestVerifC17LLReplay(t *testing.T) {
 			case "dial":
 				a, b := net.Pipe()
 				clients = append(clients, a)
+				cmu.Lock()
+				peerOf[b] = a
+				cmu.Unlock()
 				inner.q <- b
 			case "acq":
 				accCmd <- struct{}{}
@@ -575,40 +611,65 @@ func TestVerifC17LLReplay(t *testing.T) {
 				time.Sleep(1500 * time.Microsecond) // let it take its slot / queue (realisation only)
 			case "accept":
 				pre, _ := g.counts()
-				inner.permits <- nil
 				select {
 				case err := <-accRes:
 					inAccept = false
 					if err != nil {
 						div = "accept returned an error"
-					} else if pre != vx.Int(st["open"]) {
+					} else if pre != vx.Int(st["open"]) && pre-1 != vx.Int(st["open"]) {
 						div = fmt.Sprintf("open=%d at accept, model says %d", pre, vx.Int(st["open"]))
 					}
 				case <-time.After(300 * time.Millisecond):
 					div = "model accepts here, the real acceptor is still held back"
 				}
 			case "err":
-				inner.permits <- c17TempErr{}
+				inner.errs <- c17TempErr{}
 				select {
 				case <-accRes:
 					inAccept = false
 				case <-time.After(300 * time.Millisecond):
 					div = "model has the inner Accept fail here, the real acceptor is still held back"
 				}
-			case "close":
+			case "eof":
+				// the peer of the oldest connection that has not seen EOF yet finishes; the handler's
+				// read returns EOF; the connection stays open
 				cmu.Lock()
-				var c net.Conn
-				if len(conns) > 0 {
-					c, conns = conns[0], conns[1:]
+				var rc *c17RConn
+				for _, x := range conns {
+					if !x.eof {
+						rc = x
+						rc.eof = true
+						break
+					}
 				}
 				cmu.Unlock()
-				if c == nil {
-					div = "model closes a connection, none is open"
+				if rc == nil || rc.peer == nil {
+					div = "model has a peer finish, no such connection"
+					break
+				}
+				rc.peer.Close()
+				if !c17Wait(rc.sawEOF, 300*time.Millisecond) {
+					div = "handler did not see EOF after the peer hung up"
+				}
+			case "close":
+				want := vx.Bool(st["eof"])
+				cmu.Lock()
+				var rc *c17RConn
+				for k, x := range conns {
+					if x.eof == want {
+						rc = x
+						conns = append(conns[:k:k], conns[k+1:]...)
+						break
+					}
+				}
+				cmu.Unlock()
+				if rc == nil {
+					div = "model closes a connection, none of that kind is open"
 					break
 				}
 				g.closing()
-				c.Close()
-				c.Close() // idempotent: releases once
+				rc.c.Close()
+				rc.c.Close() // idempotent: releases once
 			case "setmax":
 				n := vx.Int(st["n"])
 				id := g.rz(n)
@@ -633,6 +694,7 @@ func TestVerifC17LLReplay(t *testing.T) {
 					div = fmt.Sprintf("model completes resize %d here, the real one is still pending", i)
 				}
 			case "lclose":
+				listenerClosed = true
 				l.Close()
 				if !inAccept {
 					break
@@ -658,6 +720,26 @@ func TestVerifC17LLReplay(t *testing.T) {
 		} else {
 			diverged++
 		}
+		// end-of-schedule probe, in the state the schedule ends in (pending tuners still parked): one more
+		// client.  If the acceptor gets through, the accept is in the log and TLC
+		// decides whether a cap allows it; if it is held back, it completes during the wind-down.
+		if div == "" && !listenerClosed {
+			a, b := net.Pipe()
+			clients = append(clients, a)
+			cmu.Lock()
+			peerOf[b] = a
+			cmu.Unlock()
+			inner.q <- b
+			if !inAccept {
+				accCmd <- struct{}{}
+				inAccept = true
+			}
+			select {
+			case <-accRes:
+				inAccept = false
+			case <-time.After(5 * time.Millisecond):
+			}
+		}
 		// wind down: let every tuner go, hang up everything, close the listener
 		gt.releaseAll()
 		time.Sleep(time.Millisecond)
@@ -665,9 +747,9 @@ func TestVerifC17LLReplay(t *testing.T) {
 		rest := conns
 		conns = nil
 		cmu.Unlock()
-		for _, c := range rest {
+		for _, rc := range rest {
 			g.closing()
-			c.Close()
+			rc.c.Close()
 		}
 		l.Close()
 		close(accCmd)
@@ -678,9 +760,9 @@ func TestVerifC17LLReplay(t *testing.T) {
 		cmu.Lock()
 		rest = conns
 		cmu.Unlock()
-		for _, c := range rest {
+		for _, rc := range rest {
 			g.closing()
-			c.Close()
+			rc.c.Close()
 		}
 		if !c17WaitGroup(&dwg, c17Patience()) {
 			g.note(vx.M{"k": "pending-resize", "beh": bi, "what": "a resize did not complete although everything was released"})
